@@ -179,7 +179,7 @@ pub fn gen_qp(t: &mut Tape, code: usize, ctx: &mut Ctx) -> Qp {
         }
         let lower = if t.p(150) { Some(gen_side(t, true)) } else { None };
         let upper = if t.p(150) { Some(gen_side(t, false)) } else { None };
-        let name = if t.p(80) { Some(format!("con_{ci}")) } else { None };
+        let name = if t.p(80) { Some(if t.p(80) { format!("cover_s{ci}d4") } else { format!("con_{ci}") }) } else { None };
         cons.push(QCon { q, b, lower, upper, name });
     }
     let threshold_text = (*t.pick(&["1e20", "1.0E+20", "1e+30", "100000000000000000000"])).to_string();
@@ -236,7 +236,19 @@ pub fn gen_qp(t: &mut Tape, code: usize, ctx: &mut Ctx) -> Qp {
         for _ in 0..t.choice(n + 1) {
             let i = t.choice(n);
             if seen.insert(i) {
-                var_names.push((i, format!("v{}_{}", i, t.choice(9))));
+                // names are arbitrary tokens; some contain fragments that look like (Fortran) number syntax
+                let k = t.choice(9);
+                let nm = match t.choice(6) {
+                    0 => format!("w{i}d{k}"),
+                    1 => format!("x{i}D-{k}"),
+                    2 => format!("{i}e{k}"),
+                    3 => format!("s{i}E+{k}x"),
+                    _ => format!("v{i}_{k}"),
+                };
+                if nm.contains(|c: char| c == 'd' || c == 'D' || c == 'e' || c == 'E') {
+                    ctx.label("name-with-exponent-like-fragment");
+                }
+                var_names.push((i, nm));
             }
         }
         if !var_names.is_empty() {
